@@ -50,7 +50,7 @@ def run(tier):
         for mode in (["uni", "bias", "runsbias", "periodic", "alt", "const1"] if thorough else ["uni", "bias", "periodic"][iid % 2:][:2]):
             iid += 1
             inputs.append({"id": iid, "mode": mode, "n": n, "seed": rng.randrange(1 << 40), "calls": [{"t": "dft"}]})
-    stattrace.trace_inputs(run, hz, inputs)
+    stattrace.trace_inputs(run, hz, inputs, max386=1100000 if thorough else 70000)
     # acceptance probe at the upper end of the range (2^26 < n <= 2^27; the 10^8-bit sample size lies here): the call is
     # started and watched for a few seconds -- a refusal shows at once, the full computation (5 GiB, minutes) is left to the
     # thorough tier
